@@ -2,6 +2,7 @@ package main
 
 import (
 	"context"
+	"log/slog"
 	"strings"
 	"sync"
 	"time"
@@ -138,4 +139,29 @@ func itoa(i int) string {
 		return "0"
 	}
 	return "1"
+}
+
+// publishDelay wraps the log handler given to a runner.  go-fsm's broadcast manager builds its logger
+// (`With("state", <new state>)`) at the very beginning of every publication, before it takes its own lock:
+// sleeping there delays the publication of the chosen states.  With the library's FSM wrapper the publication
+// happens inside the state machine's write lock, so a delay only slows the transition down; a wrapper that
+// published outside that lock would let a second goroutine's change overtake the delayed one, and the state
+// stream would show the two out of order.
+type publishDelay struct {
+	inner  slog.Handler
+	states map[string]time.Duration
+}
+
+func (h publishDelay) Enabled(c context.Context, l slog.Level) bool { return h.inner.Enabled(c, l) }
+func (h publishDelay) Handle(c context.Context, r slog.Record) error { return h.inner.Handle(c, r) }
+func (h publishDelay) WithGroup(n string) slog.Handler              { return publishDelay{h.inner.WithGroup(n), h.states} }
+func (h publishDelay) WithAttrs(as []slog.Attr) slog.Handler {
+	for _, a := range as {
+		if a.Key == "state" {
+			if d, ok := h.states[a.Value.String()]; ok {
+				time.Sleep(d)
+			}
+		}
+	}
+	return publishDelay{h.inner.WithAttrs(as), h.states}
 }
